@@ -116,6 +116,8 @@ class Time(VC):
         prop, blk, d = mk_proposal(I, ctx, self.kind, False, True, status=stored)
         ob.outcome = "ret"
         h2 = ctx.fresh_int("later.height", 0, U64); ctx.assume(h2 >= blk.get("height"))
+        d["h"], d["eh"], d["h2"], d["stored"] = blk.get("height"), prop.get("expires").fields[0], h2, stored
+        ob.info["time"] = d
         blk2 = Struct("BlockInfo", [h2, blk.get("time"), "chain"], blk.names)
         inv = zand(zimplies(stored == "Passed", kernel(I, ctx, "is_passed", prop, blk)))
         ctx.assume(inv)
@@ -125,6 +127,30 @@ class Time(VC):
         ob.witness("expires_in_between", zand(h2 >= d["eh"] if "eh" in d else True))
         ob.witness("ok")
         ob.twin("twin.status_never_changes_with_time", s1.variant == s2.variant)
+
+    def replay(self, I, v):
+        """two native probes of the cw3 library (scenario cw3_kernel): the same stored proposal observed at the earlier and at the later block"""
+        from mirsym import replay, serial
+        d = v.info["time"]
+        ev = serial.Concretizer(I, v.ctx, v.model, None).ev
+        thr = {"AbsoluteCount": lambda: {"absolute_count": {"weight": ev(d["w"])}},
+               "AbsolutePercentage": lambda: {"absolute_percentage": {"percentage": serial.dec_str(ev(d["p"]))}},
+               "ThresholdQuorum": lambda: {"threshold_quorum": {"threshold": serial.dec_str(ev(d["t"])), "quorum": serial.dec_str(ev(d["q"]))}}}[d["kind"]]()
+        base = {"threshold": thr, "total_weight": ev(d["total"]),
+                "votes": {"yes": ev(d["yes"]), "no": ev(d["no"]), "abstain": ev(d["ab"]), "veto": ev(d["veto"])},
+                "expires": {"at_height": ev(d["eh"])}, "status": d["stored"].lower()}
+        reqs = [{"mode": "scenario", "name": "cw3_kernel", "params": dict(base, block={"height": ev(d[k]), "time": "0"})} for k in ("h", "h2")]
+        a, b = replay.run(reqs[0]), replay.run(reqs[1])
+        out = {"request": reqs[0], "request_later": reqs[1], "native": {"earlier": a, "later": b}}
+        if a.get("result") != "ok" or b.get("result") != "ok":
+            out["reproduced"] = False; out["why"] = "native kernel did not return a status"
+            return out
+        s1, s2 = str(a.get("current_status")).capitalize(), str(b.get("current_status")).capitalize()
+        fwd = ORDER.get(s2, -1) >= ORDER.get(s1, 99) and (s1 == s2 or s1 == "Open")
+        out["reproduced"] = not fwd
+        out["observed"] = f"{s1} at height {ev(d['h'])} -> {s2} at height {ev(d['h2'])}"
+        if fwd: out["why"] = "natively the observed status moves forward"
+        return out
 
 
 def vcs(tier):
